@@ -76,7 +76,7 @@ def o1_unchecked(check: Check, repo: Repo) -> None:
                              finding=Finding("O1", f"{rel}::{q}", f"result of {n.func.id}() is not tested", f"{q}: `{ast.unparse(par)[:70] if par is not None else ''}` — {n.func.id}() returns None when the rewrite does not apply; ignoring it continues with a partially built expression", {}))
 
 
-def o2_order(check: Check, repo: Repo) -> None:
+def o2_order(check: Check, repo: Repo, tier: str = "quick") -> None:
     sc = repo.func(SQUASH, "squash_choice")
     src = ast.unparse(sc)
     ok = "is_order_independent(" in src
@@ -99,15 +99,22 @@ def o2_order(check: Check, repo: Repo) -> None:
     want_emit = ["multi_sensitive", "insensitive_parts", "unicode_props", "_optimize_char_class(char_class_parts, ranges)"]
     ok = emit_order == want_emit
     check.oblige("O2", f"{CHOICE}::build_optimized_pattern", "emission order: sensitive multi, insensitive multi, unicode classes, character class" if ok else f"build_optimized_pattern emits {emit_order}", ok)
+    # the guard itself, decided semantically on the model (sa/ordercheck.py)
+    from ..ordercheck import check_order_independence
+
     ioi = repo.func(CHOICE, "is_order_independent")
-    rank = next((n for n in ast.walk(ioi) if isinstance(n, ast.FunctionDef) and n.name == "rank"), None)
-    rs = ast.unparse(rank) if rank is not None else ""
-    ok = rank is not None and "return 0 if c.case == ChoiceCase.SENSITIVE else 1" in rs and "return 2 if isinstance(c, UnicodePropertyRule) else 3" in rs and "len(c.value) != 1" in rs
-    check.oblige("O2", f"{CHOICE}::is_order_independent", "ranks agree with the emission order of build_optimized_pattern" if ok else "rank() of is_order_independent no longer mirrors build_optimized_pattern's grouping", ok, sample=True,
-                 finding=Finding("O2", f"{CHOICE}::is_order_independent", "rank() no longer mirrors build_optimized_pattern's grouping", "the order-independence test reasons about a regrouping other than the one build_optimized_pattern performs", {}))
-    body = ast.unparse(ioi)
-    ok = "rank(a) > rank(b)" in body and "overlaps(a, b)" in body and "return False" in body
-    check.oblige("O2", f"{CHOICE}::is_order_independent", "a swapped, overlapping pair makes the choice order-dependent" if ok else "is_order_independent no longer rejects swapped overlapping pairs", ok)
+    construct = f"{CHOICE}::is_order_independent"
+    alphabet, max_len = (["a", "b", "A", "B", "1"], 2) if tier == "quick" else (["a", "b", "c", "A", "B", "C", "1", "2"], 2)
+    n, bad = check_order_independence(ioi, construct, alphabet, max_len)
+    check.count("order_dependent_model_pairs", n)
+    unsound = [d for k, d in bad if k == "UNSOUND"]
+    raises = [d for k, d in bad if k == "RAISES"]
+    sig = "is_order_independent approves a regrouping that changes what the choice matches"
+    check.oblige("O2", construct, f"every order-dependent swapped pair of the model is rejected ({n} pairs)" if not unsound else sig, not unsound, sample=True,
+                 finding=Finding("O2", construct, sig, f"{sig}: e.g. {unsound[0] if unsound else ''} ({len(unsound)} of {n} order-dependent model pairs approved); build_optimized_pattern moves the second alternative in front of the first", {"witness": unsound[0] if unsound else ""}))
+    sig = "is_order_independent raises on a legal choice"
+    check.oblige("O2", construct, "total on the model" if not raises else sig, not raises,
+                 finding=Finding("O2", construct, sig, f"{sig}: e.g. {raises[0] if raises else ''}", {"witness": raises[0] if raises else ""}))
 
 
 def o3_trivia(check: Check, repo: Repo) -> None:
@@ -258,22 +265,61 @@ def o9_skip_rule(check: Check, repo: Repo) -> None:
     check.oblige("O9", "src/pest/state.py::ParserState.parse_trivia", "the fused rule replaces the WHITESPACE/COMMENT loop" if ok else "parse_trivia no longer delegates to the fused rule", ok)
 
 
+def o10_truthy(check: Check, repo: Repo, rep) -> None:
+    """An optimized node must not treat offset/index 0 as 'nothing found' (the node it replaced does not)."""
+    from ..truthy import apply
+
+    apply(check, repo, rep, "O10", lambda rel: rel.startswith("src/pest/grammar/optimizers/") or rel in (OPT, CHOICE, "src/pest/grammar/expressions/terminals.py"),
+          lambda construct: any(k in construct for k in ("SkipUntil", "OptimizedChoice", "Optimized", "Skip")))
+
+
+def o11_skip_search(check: Check, repo: Repo, rep) -> None:
+    """SkipUntil (interpreted and emitted) stops exactly where the loop it replaces stops."""
+    import textwrap
+
+    from ..skipsem import check_parse, check_skeleton
+
+    rel = "src/pest/grammar/expressions/terminals.py"
+    sig = "SkipUntil does not stop at the earliest terminator (or the end of input)"
+    fn = repo.func(rel, "SkipUntil.parse")
+    n, bad = check_parse(fn, f"{rel}::SkipUntil.parse")
+    check.count("skip_search_model_points", n)
+    check.oblige("O11", f"{rel}::SkipUntil.parse", f"stops at min(find results) or len(input) on all {n} order types of the search results" if not bad else sig, not bad, sample=True,
+                 finding=Finding("O11", f"{rel}::SkipUntil.parse", sig, f"SkipUntil.parse: {bad[0] if bad else ''} ({len(bad)} of {n} abstract points)", {"witness": bad[0] if bad else ""}))
+    seen = 0
+    for _label, sk in rep.skeleton_sources:
+        if not sk.construct.endswith("SkipUntil.generate"):
+            continue
+        seen += 1
+        n, bad = check_skeleton(textwrap.dedent(sk.source), sk.construct)
+        check.count("skip_search_model_points", n)
+        check.oblige("O11", sk.construct, f"emitted code stops at min(find results) or len(input) on all {n} order types" if not bad else sig, not bad, sample=True,
+                     finding=Finding("O11", sk.construct, sig, f"SkipUntil.generate emits code for which {bad[0] if bad else ''} ({len(bad)} of {n} abstract points)", {"witness": bad[0] if bad else ""}))
+    if not seen:
+        raise AnalysisError("anchor vanished: no SkipUntil.generate skeleton")
+
+
 def run(tier: str) -> Check:
     check = Check("C02", tier, EXPLANATION)
-    check.rules = ["O1", "O2", "O3", "O4", "O5", "O6(TERM)", "O7", "O8", "O9"]
+    check.rules = ["O1", "O2", "O3", "O4", "O5", "O6(TERM)", "O7", "O8", "O9", "O10", "O11"]
     check.assumptions = [
         "NOT decided: equivalence of the regex built by build_optimized_pattern with the choice it replaces beyond O2 and C12's fragment rules, and of SkipUntil's search with the loop it replaces in atomic context — equalities of languages of run-time constructed objects",
         "the unrolled forms are those of the specification table shared with C03/C04",
     ]
-    repo, _ = fill(check, tier)
+    repo, rep = fill(check, tier)
+    o10_truthy(check, repo, rep)
+    o11_skip_search(check, repo, rep)
     o1_unchecked(check, repo)
-    o2_order(check, repo)
+    o2_order(check, repo, tier)
     o3_trivia(check, repo)
     o4_purity(check, repo)
     o5_inplace(check, repo)
     o7_unroll(check, repo)
     o8_inliners(check, repo)
     o9_skip_rule(check, repo)
+    check.floor("order_dependent_model_pairs", 500)
+    check.floor("truthy_skeletons", 2)
+    check.floor("skip_search_model_points", 300)
     check.floor("optional_helper_call_sites", 7)
     check.floor("unroll_arms", 5)
     check.floor("default_steps", 5)
